@@ -57,4 +57,17 @@ Theorem tdmagmag_loglike ddt mu rg cu :
           - 1 / 2 * (2 * ln (2 * PI) + L)))
     cu [("inv", [mat (CovMg ddt)])].
 Proof. unfold td_obj, CovMg, dM, s0. yields_with real_fact ltac:(val_eq). Qed.
+
+(* a lens entered with its time delays ONLY (two delays, no magnitude): the source magnitude touches nothing - the model vector is
+   Ddt * unit * Fermat differences, the whole model covariance is scaled by (Ddt * unit)^2 *)
+Variables (t1 f1 : R).
+Definition td_only_obj := VObj "TDMagMagnitudeLikelihood"
+  [("_data_vector", vec [t0; t1]); ("_n_td", VInt 2); ("_n_amp", VInt 0); ("_cov_data", mat [[d00; d01]; [d10; d11]]);
+   ("_fermat_unit_conversion", num u); ("_model_tot", vec [f0; f1]); ("_cov_model", mat [[q00; q01]; [q10; q11]]); ("num_data", VInt 2)].
+Definition CovTd (ddt : R) : list (list R) :=
+  [[d00 + s0 ddt * (q00 * s0 ddt); d01 + s0 ddt * (q10 * s0 ddt)]; [d10 + s0 ddt * (q01 * s0 ddt); d11 + s0 ddt * (q11 * s0 ddt)]].
+Theorem tdmagmag_no_magnitudes ddt mu rg cu :
+  yields Gtd 100 (CFun src_TDMagMagnitudeLikelihood_model_cov) (Some td_only_obj) [num ddt; num mu] [] rg cu
+    (VTuple [vec [ddt * u * f0; ddt * u * f1]; mat (CovTd ddt)]) cu [].
+Proof. unfold td_only_obj, CovTd, s0. yields_with real_fact ltac:(val_eq). Qed.
 End TD.
